@@ -42,7 +42,10 @@ MAPS = [(Fr(1), Fr(-16)), (Fr(1), Fr(1000)), (Fr(1, 4), Fr(0)), (Fr(8), Fr(-3)),
         # round 9: offsets taken from the case itself - the recording ENDS exactly at 0 (all times negative; `t_end or
         # default`, np.trim_zeros, `x[-1]` used as a length), and a spike / breakpoint of the first time list sits
         # exactly on 0.0 (truthiness of a time: `if prev and ...`, `spikes.any()`)
-        (Fr(1), "end"), (Fr(1), "first"), (Fr(1), "last")]
+        (Fr(1), "end"), (Fr(1), "first"), (Fr(1), "last"),
+        # round 11: time stamps of the order 7e7 (milliseconds over a day): one unit in the last place is 1.5e-8 there, so
+        # an absolute tolerance that was tightened below it (`t > tStart - 1e-9`) silently stops admitting the edge itself
+        (Fr(1), Fr(2 ** 26))]
 
 
 def _anchor(rid, args, what):
@@ -121,9 +124,49 @@ def extend(cases, every=4):
             a2 = None if c is None else transform(rid, args, k, c)
         except Exception:
             a2 = None
-        if a2 is not None and _exact(a2):
+        if a2 is not None and _exact(a2) and _headroom(rid, a2):
             out.append((rid, a2))
     return out
+
+
+def _times(rid, args):
+    out = []
+
+    def walk(v):
+        if isinstance(v, (list, tuple)):
+            for x in v:
+                walk(x)
+        elif isinstance(v, Fr):
+            out.append(v)
+    for kind, a in zip(SIG[rid], args):
+        if kind in "stTL":
+            walk(a)
+    return out
+
+
+def _headroom(rid, args):
+    """the implementation may form times up to one recording length beyond the outermost time of the case (auxiliary
+    spikes one inter-spike interval outside the edges): those sums must still be exact in binary64 on the grid of the
+    case, otherwise a copy whose times sit in the last bits of the mantissa (the ulp-scale map applied to a case that
+    straddles a power of two, e.g. [1 - 2^-48, 1]) measures rounding, not the library.  Found by the thorough tier:
+    such a copy of a shifted C08 case made the SPIKE kernel differ from the exact model by 1/81."""
+    ts = _times(rid, args)
+    if len(ts) < 2:
+        return True
+    lo, hi = min(ts), max(ts)
+    span = hi - lo
+    if span == 0:
+        return True
+    delta = Fr(1, max(t.denominator for t in ts))            # dyadic: the grid spacing of the case
+    big = max(abs(hi + span), abs(lo - span))
+    if big == 0:
+        return True
+    e = 0
+    while Fr(2) ** e > big:
+        e -= 1
+    while Fr(2) ** (e + 1) <= big:
+        e += 1
+    return Fr(2) ** (e - 52) <= delta
 
 
 def _exact(v):
